@@ -8,8 +8,8 @@ Props/C11.lean proves presentation independence of the builder state (`dec`).  C
 
   C11_presentations                   two batches with the same documented rows (`interpRow`, which matches records by
                                       NAME), both accepted: the returned arrays decode identically, column by column.
-  C11_presentations_success_partial   acceptance itself is presentation independent — GIVEN completeness for the second
-                                      batch (hypothesis explicit; see the comment there).
+  (acceptance itself is presentation independent: Props/C11Accept.lean `C11_presentations_success`,
+   `C11_presentations_accept_iff`; physical equality of the arrays: Props/C11Physical.lean)
   C11_histories_presentations         the same along ArrayBuilder histories (through C10).
   items_*                             `Items(vs)` through `to_marrow` / `extend` / `Serializer` = the batch of one-field
                                       records named `item`; its arrays decode like those of any other presentation of
@@ -102,35 +102,6 @@ theorem same_rows_of_index (ext : Ext) (fields : List Field) (rows1 rows2 : List
   simp only [List.length_map] at h1 h2
   simp only [List.getElem_map]
   exact h i h1 h2
-
-/-- **acceptance is presentation independent — partial.**  If one presentation of a logical batch is accepted, so is
-any other.  PARTIAL: proved from `hcomplete`, the completeness statement for the second batch ("records that all have a
-documented value are accepted"), which is NOT proved here (Props/C01Complete.lean, if present, is the place) and is not
-true without further conditions on the logical batch (e.g. more distinct dictionary values than the key type can
-index: every presentation is refused although every record has a documented value — such refusals depend on the logical
-rows only, but that is not proved either).  What IS proved: acceptance of `rows1` gives every record of `rows1`, hence of
-`rows2`, a documented value (soundness, `C01_build_decode`). -/
-theorem C11_presentations_success_partial (ext : Ext) (fields : List Field) (rows1 rows2 : List SVal) (arrs1 : List Arr)
-    (hschema : ∀ f ∈ fields, Lemmas.C03.SchemaOKF f)
-    (hcov : fields.all Build.coveredF = true)
-    (hsafe : ∀ root0, newRoot fields = .ok root0 → Safe root0)
-    (hraw1 : ∀ x ∈ rows1, noRaw x = true) (hraw2 : ∀ x ∈ rows2, noRaw x = true)
-    (hsame : rows1.map (interpRow ext fields) = rows2.map (interpRow ext fields))
-    (hcomplete : (∀ x ∈ rows2, ∃ lv, interpRow ext fields x = .ok lv) → ∃ arrs2, toMarrow ext fields rows2 = .ok arrs2)
-    (h1 : toMarrow ext fields rows1 = .ok arrs1) :
-    ∃ arrs2, toMarrow ext fields rows2 = .ok arrs2 ∧ arrs1.map decodeAll = arrs2.map decodeAll := by
-  obtain ⟨_, cols, _, _, _, hr⟩ := C01.C01_build_decode ext fields rows1 arrs1 hschema hcov hsafe hraw1 h1
-  have hlen : rows1.length = rows2.length := by simpa using congrArg List.length hsame
-  have hok : ∀ x ∈ rows2, ∃ lv, interpRow ext fields x = .ok lv := by
-    intro x hx
-    obtain ⟨i, hi, rfl⟩ := List.getElem_of_mem hx
-    have hi1 : i < rows1.length := by omega
-    have e : interpRow ext fields rows1[i] = interpRow ext fields rows2[i] := by
-      have := congrArg (fun l => l[i]?) hsame
-      simpa [List.getElem?_map, List.getElem?_eq_getElem hi, List.getElem?_eq_getElem hi1] using this
-    exact ⟨_, by rw [← e]; exact hr i hi1⟩
-  obtain ⟨arrs2, h2⟩ := hcomplete hok
-  exact ⟨arrs2, h2, C11_presentations ext fields rows1 rows2 arrs1 arrs2 hschema hcov hsafe hraw1 hraw2 hsame h1 h2⟩
 
 /-! ### neighbours -/
 
